@@ -797,6 +797,20 @@ class SymExec(object):
                 sig = self.record_fields(f) or self.signature(f)
                 if sig is not None:
                     args, kws = _positional(sig, args, kws)
+            if f[0] == 'attr' and f[1] == ('name', 'operator') and not kws and not any(a_[0] == 'star' for a_ in args):
+                # the function forms of the operators: operator.eq(a, b) is a == b, operator.xor(a, b) is a ^ b, ..
+                _cmp = {'eq': '==', 'ne': '!=', 'lt': '<', 'le': '<=', 'gt': '>', 'ge': '>=', 'is_': 'is', 'is_not': 'is not'}
+                _bin = {'xor': '^', 'and_': '&', 'or_': '|', 'add': '+', 'sub': '-', 'mul': '*', 'truediv': '/', 'floordiv': '//', 'mod': '%'}
+                if f[2] in _cmp and len(args) == 2:
+                    return ('cmp', _cmp[f[2]], args[0], args[1])
+                if f[2] in _bin and len(args) == 2:
+                    return ('binop', _bin[f[2]], args[0], args[1])
+                if f[2] == 'contains' and len(args) == 2:
+                    return ('cmp', 'in', args[1], args[0])
+                if f[2] == 'getitem' and len(args) == 2:
+                    return ('sub', args[0], args[1])
+                if f[2] in ('not_',) and len(args) == 1:
+                    return ('unop', 'not', args[0])
             if f[0] == 'call' and f[1] in (('name', 'attrgetter'), ('attr', ('name', 'operator'), 'attrgetter')) and len(f[2]) == 1 \
                     and not f[3] and len(args) == 1 and not kws:
                 # attrgetter('a')(x) is x.a; with a conditional name, the conditional attribute
@@ -1013,6 +1027,14 @@ class SymExec(object):
             return t
         if isinstance(n, ast.BinOp):
             l, r = E(n.left), E(n.right)
+            if isinstance(n.op, ast.BitXor) and self.inline and l == ('name', 'self') and self.cls is not None and '__xor__' not in [getattr(x_, 'name', None) for x_ in self._stack]:
+                # self ^ other inside a method of a class that defines ^: the class's own __xor__, read in place
+                ft_ = ('attr', l, '__xor__')
+                fd_ = self.resolve(ft_, st)
+                if fd_ is not None and _expression_like(fd_):
+                    r_ = self.inline_expr(fd_, ft_, (r,), (), st)
+                    if r_ is not None:
+                        return r_
             if isinstance(n.op, ast.Add):
                 cat = concat_str(l, r)
                 if cat is not None:
